@@ -13,6 +13,7 @@ CONSTANTS
   MaxMsgs = 3
   WithDNSFail = TRUE
   SlowSet = {FALSE}
+  CnSet = {"no"}
   Devs = {}
   Gen = FALSE
 VIEW View
